@@ -691,6 +691,11 @@ async def read_share_chunk(
     insofar as it doesn't always require a range.  In practice a range is
     always provided by the current callers.
     """
+    if length == 0:
+        # An HTTP byte range cannot be empty, so there is nothing we could
+        # ask the server for; like the Foolscap protocol, a zero-length read
+        # is an empty result.
+        return b""
     url = client.relative_url(
         "/storage/v1/{}/{}/{}".format(
             share_type, _encode_si(storage_index), share_number
